@@ -228,7 +228,7 @@ def _gen_measures(r, zoo, extra):
     npts, dim = r.randint(6, 16), r.choice([2, 3, 5])
     vec = [[round(r.gauss(0, 1) + (2.0 if k == 0 else 0.0), 5) for k in range(dim)] for _ in range(npts)]
     ntr = r.randint(3, 7)
-    c = {"zoo": zoo, "npts": npts, "dim": dim, "vectors": vec, "train": _measure_rows(r, ntr, npts, r.choice([0.3, 0.6])), "test": _measure_rows(r, r.randint(2, 6), npts, r.choice([0.3, 0.6]))}
+    c = {"zoo": zoo, "npts": npts, "dim": dim, "vectors": vec, "train": _measure_rows(r, ntr, npts, r.choice([0.3, 0.6])), "test": _measure_rows(r, r.choice([2, 3, 5, 9, 13]), npts, r.choice([0.3, 0.6]))}
     c.update(extra(r, c))
     return c
 
@@ -243,7 +243,7 @@ class ZWasserstein:
             nref = r.choice([1, 2, 4])
             ntr = len(c["train"])
             p = {"method": method, "input_method": im, "metric": r.choice(["cosine", "euclidean"]) if method != "HeuristicLinearAlgebra" else "cosine",
-                 "reference_size": nref, "random_state": r.randint(0, 9), "memory_size": r.choice(["64", "1k", "4k", "2G"]), "reference_scale": 0.5}
+                 "reference_size": nref, "random_state": r.randint(0, 9), "memory_size": r.choice(["64", "200", "1k", "4k", "2G"]), "reference_scale": 0.5}
             # full rank: n_components = n_rows <= LOT dimension (so that the SVD is exact and fit == transform)
             if method == "HeuristicLinearAlgebra":
                 p["n_components"] = min(ntr, c["dim"], c["npts"])
@@ -302,7 +302,7 @@ class ZSinkhorn:
         def extra(r, c):
             nref = r.choice([2, 4])
             p = {"n_components": min(len(c["train"]), nref * c["dim"]), "reference_size": nref, "metric": r.choice(["cosine", "euclidean"]), "random_state": r.randint(0, 9),
-                 "chunk_size": r.choice([1, 3, 32]), "memory_size": r.choice(["1k", "2G"]), "reference_scale": 0.5}
+                 "chunk_size": r.choice([1, 3, 32]), "memory_size": r.choice(["64", "200", "1k", "2G"]), "reference_scale": 0.5}
             return {"params": p, "explicit_reference": False}
         return _gen_measures(r, "Sinkhorn", extra)
 
